@@ -198,6 +198,20 @@ def main(argv=None):
         path = argv[argv.index("--replay") + 1]
         with open(path) as fh:
             rec = json.load(fh)
+        if "--emit-test" in argv:
+            # a plain pytest function that replays the stored case without the explorer
+            name = os.path.splitext(os.path.basename(path))[0]
+            print("# run with: PYTHONPATH=/verif:/repo/src /venv/bin/python -m pytest -q <this file>")
+            print("import json\n")
+            print(f"CASE = json.loads(r\'\'\'{json.dumps(rec['case'])}\'\'\')\n")
+            print(f"def test_{prop.lower()}_{name}():")
+            print(f"    \"\"\"{prop}: {json.dumps(rec['sig'], sort_keys=True)}\"\"\"")
+            print("    import cobra")
+            print("    cobra.Configuration().processes = 1")
+            print(f"    from mc.harness import {prop.lower()} as harness")
+            print("    violations = harness.replay(CASE)")
+            print("    assert not violations, violations[0]")
+            return EXIT_OK
         import warnings
         import logging
 
